@@ -12,7 +12,7 @@ RULE = ('Hypothesis-generated molecules of 1..12 fragments on a random 30..120 b
         'qualities from {2,20,30,40,0} so that quality ties between mates and vote ties are frequent, CIGARs with '
         'soft clips / insertions / deletions. Molecule.get_consensus (plain and dove_safe) is compared with a brute-force '
         'vote; metamorphic: all permutations of the insertion order (<=4 fragments; 6 drawn otherwise) and duplication of '
-        'every fragment; history: an earlier get_consensus call in either mode on the same molecule object. Part deep: molecules of 254..520 single-read fragments in which 1 / n-256 / 255..257 / n/2 fragments carry another base (vote counters around 256 and 512). Non-trivial: at least one tied (absent) position and one position where the mates of a '
+        'every fragment; history: an earlier get_consensus call in either mode on the same molecule object, or a consensus request followed by Molecule.add_molecule of the remaining fragments. Part deep: molecules of 254..520 single-read fragments in which 1 / n-256 / 255..257 / n/2 fragments carry another base (vote counters around 256 and 512). Non-trivial: at least one tied (absent) position and one position where the mates of a '
         'fragment disagree.')
 ASSUMPTIONS = ['fragments have an R1 flagged read1 (the implementation asserts it); reads carry correct MD tags',
                'all fragments of a molecule share cell, UMI and R1 orientation (what molecule assignment guarantees)']
@@ -101,6 +101,7 @@ def strategy():
             frags.append({'r1': r1, 'r2': r2})
         return {'ref': ref, 'r1_rev': r1_rev, 'frags': frags, 'dove_safe': draw(st.sampled_from([False, False, True])),
                 'prior': draw(st.sampled_from([None, None, True, False])),
+                'merge': draw(st.sampled_from([None, None, None, 1, 2, 3])),
                 'perm_seeds': draw(st.lists(st.integers(0, 10 ** 6), min_size=6, max_size=6))}
     return case()
 
@@ -212,10 +213,25 @@ def run_molecule(case, order, double=False):
     frs = [build_fragment(h, case['ref'], i, case['frags'][i], case['r1_rev']) for i in order]
     if double:
         frs = frs + [build_fragment(h, case['ref'], i, case['frags'][i], case['r1_rev']) for i in order]
-    m = Molecule(frs[0])
-    for f in frs[1:]:
-        if not m.add_fragment(f):
-            raise RuntimeError('harness: fragment refused by molecule')
+    k = case.get('merge')
+    if k and 0 < k < len(frs) and not double:
+        # history: the first k fragments form a molecule that is asked for its consensus, then a second molecule holding
+        # the remaining fragments is merged into it (Molecule.add_molecule)
+        m = Molecule(frs[0])
+        for f in frs[1:k]:
+            if not m.add_fragment(f):
+                raise RuntimeError('harness: fragment refused by molecule')
+        other = Molecule(frs[k])
+        for f in frs[k + 1:]:
+            if not other.add_fragment(f):
+                raise RuntimeError('harness: fragment refused by molecule')
+        m.get_consensus(dove_safe=case['dove_safe'])
+        m.add_molecule(other)
+    else:
+        m = Molecule(frs[0])
+        for f in frs[1:]:
+            if not m.add_fragment(f):
+                raise RuntimeError('harness: fragment refused by molecule')
     if case.get('prior') is not None:
         # an earlier query on the same molecule object, possibly in the other mode: answers may not depend on it
         m.get_consensus(dove_safe=case['prior'])
@@ -244,11 +260,11 @@ def eval_case(case):
     except Exception as e:
         return out.bad('exception:%s' % type(e).__name__, repr(e))
     mode = 'dove_safe' if case['dove_safe'] else 'plain'
-    if case.get('prior') is not None and got != exp:
-        g0, _ = run_molecule(dict(case, prior=None), base)
+    if (case.get('prior') is not None or case.get('merge')) and got != exp:
+        g0, _ = run_molecule(dict(case, prior=None, merge=None), base)
         if g0 == exp:
-            out.bad('%s:answer-depends-on-an-earlier-query' % mode, 'after get_consensus(dove_safe=%r) on the same molecule: %d positions differ from the answer of a fresh molecule' % (
-                case['prior'], len(set(got.items()) ^ set(exp.items()))))
+            out.bad('%s:answer-depends-on-an-earlier-query' % mode, 'after get_consensus(dove_safe=%r) / a merge at %r on the same molecule: %d positions differ from the answer of a fresh molecule' % (
+                case['prior'], case.get('merge'), len(set(got.items()) ^ set(exp.items()))))
             return out
     if got != exp:
         diffs = sorted(set(got.items()) ^ set(exp.items()))
